@@ -15,7 +15,7 @@ import sys
 import time
 
 ROOT = os.path.dirname(os.path.dirname(os.path.abspath(__file__)))
-PY = os.path.join(ROOT, ".venv", "bin", "python")
+PY = "/verif/.venv/bin/python"
 REPO_SRC = os.environ.get("FANDANGO_SRC", "/repo/src")
 JOBS = int(os.environ.get("VERIF_JOBS", "16"))
 
@@ -98,12 +98,13 @@ def native_replay(harness, fn, args, alarm=120, henv=None):
     return r
 
 
-def conformance(harness):
+def conformance(harness, henv=None):
     """native vs traced observations must be identical"""
+    henv = henv or {}
     nat = subprocess.run([PY, os.path.join(ROOT, "engine", "native.py"), "conform", harness],
-                         capture_output=True, text=True, cwd=ROOT, timeout=900, env=_env({"VERIF_NATIVE": "1", "VERIF_CONFORM": "1"}))
+                         capture_output=True, text=True, cwd=ROOT, timeout=900, env=_env({"VERIF_NATIVE": "1", "VERIF_CONFORM": "1", **henv}))
     tr = subprocess.run([PY, os.path.join(ROOT, "engine", "chconf.py"), harness],
-                        capture_output=True, text=True, cwd=ROOT, timeout=1800, env=_env({"VERIF_CONFORM": "1"}))
+                        capture_output=True, text=True, cwd=ROOT, timeout=1800, env=_env({"VERIF_CONFORM": "1", **henv}))
     a = _tagged(nat.stdout, "NATIVE")
     b = _tagged(tr.stdout, "CHCONF")
     if a is None or b is None:
@@ -183,8 +184,13 @@ class Run:
     # ---- CrossHair conditions -------------------------------------------------------------
     def run_conditions(self, conds, conformance_harnesses=()):
         for h in conformance_harnesses:
+            henv = None
+            if isinstance(h, tuple):
+                h, henv = h
             hp = h if os.path.isabs(h) else os.path.join(ROOT, "harness", h)
-            ok, n, diffs = conformance(hp)
+            ok, n, diffs = conformance(hp, henv)
+            if ok and n == 0:
+                self.errors.append(f"conformance list of {os.path.basename(hp)} is empty")
             self.extra.setdefault("conformance_inputs", 0)
             self.extra["conformance_inputs"] += n
             if not ok:
